@@ -673,3 +673,18 @@ Proof. split; vm_compute; reflexivity. Qed.
 
 Lemma repo_cfg_cases : cfg_repo = cfg_unguarded \/ cfg_repo = cfg_guarded.
 Proof. first [left; reflexivity | right; reflexivity]. Qed.
+
+(* ------------------------------------------------------------------ instantiated at cfg_repo (the decoder in /repo now) *)
+
+Lemma repo_guarded : is_guarded cfg_repo = true /\ guard cfg_repo = true /\ depth_limit cfg_repo = Some guard_depth /\
+  isize_max cfg_repo <= usize_max cfg_repo.
+Proof. repeat split; try reflexivity. vm_compute. discriminate. Qed.
+
+Theorem repo_no_panic (b : bytes) : size_entry * lenN b <= isize_max cfg_repo -> forall p, result (dec_pa cfg_repo b) <> Panic p.
+Proof. destruct repo_guarded as [G [_ [_ W]]]. exact (guarded_no_panic cfg_repo b G W). Qed.
+
+Theorem repo_alloc_linear (b : bytes) : size_entry * lenN b <= isize_max cfg_repo -> alloc_peak (dec_pa cfg_repo b) <= 66 * lenN b.
+Proof. destruct repo_guarded as [G [_ [_ W]]]. exact (guarded_alloc_linear cfg_repo b G W). Qed.
+
+Theorem repo_depth_bounded (b : bytes) : size_entry * lenN b <= isize_max cfg_repo -> depth_max (dec_pa cfg_repo b) <= guard_depth + 1.
+Proof. destruct repo_guarded as [_ [Gg [Gd W]]]. exact (guarded_depth_bounded cfg_repo b guard_depth Gg Gd W). Qed.
